@@ -69,6 +69,11 @@ def build(case):
     # light noise: blank / comment lines at given positions of the data section
     for pos, kind in sorted(case.get("noise", []), reverse=True):
         ln = {"t": "blank", "text": ""} if kind == "b" else {"t": "comment", "text": "# note"}
+        if kind == "i":
+            # an indented comment whose word count is no column count of the file
+            ln = {"t": "comment", "text": "   # not a row: 1 2 3 4 5 6 7 8 9 10 11 12 13"}
+        elif kind == "t":
+            ln = {"t": "comment", "text": "\t#1 2"}
         a["lines"].insert(min(pos, len(a["lines"])), ln)
     from vlib import strategies as S_
     return S_.apply_scaffold(spec, case.get("scaffold"))
@@ -93,7 +98,10 @@ def oracle(case):
         out.cls("trailing-section")
     out.nontrivial = (d != c) or (wrap and c % wrap == 0 and c > wrap) or r == 1 or c == 1 \
         or case.get("sign") == "neg"
-    las = read_spec(spec, engine=case["engine"])
+    mc = case.get("mnemonic_case", "upper")
+    if mc != "upper":
+        out.cls("mnemonic_case-" + mc)
+    las = read_spec(spec, engine=case["engine"], mnemonic_case=mc)
     if is_raised(las):
         out.rejected = True
         out.cls("rejected:" + las.bucket)
@@ -103,7 +111,7 @@ def oracle(case):
         out.fail("ragged-curves|%s" % ("wrap" if wrap else "nowrap"),
                  "curve lengths differ: %r\n%s" % (lens, spec_summary(spec)))
         return out
-    diffs, got, exp = compare_with_expected(las, spec)
+    diffs, got, exp = compare_with_expected(las, spec, mnemonic_case=mc)
     # C07 is about the curve collection: Curves items and data
     diffs = [x for x in diffs if x[0].startswith("Curves") or x[0].startswith("data")]
     if diffs:
@@ -123,9 +131,11 @@ def grid(tier):
                         if r <= 3 and c <= 5 and d <= 5:
                             for dlm in ("COMMA", "TAB"):
                                 yield dict(d=d, c=c, r=r, engine=engine, sign=sign, dlm=dlm)
+                                if sign == "pos":
+                                    yield dict(d=d, c=c, r=r, engine=engine, sign=sign, dlm=dlm, mnemonic_case="lower")
                         if sign == "pos" and r <= 3 and c <= 6:
                             # what the last line of ~A looks like, with and without a following section
-                            for noise in ([[r, "b"]], [[r, "c"]], [[0, "c"]], [[r, "c"], [r, "b"]]):
+                            for noise in ([[r, "b"]], [[r, "c"]], [[0, "c"]], [[r, "c"], [r, "b"]], [[r // 2, "i"]], [[0, "t"], [r, "i"]]):
                                 for after in ([], ["P"], ["O"]):
                                     yield dict(d=d, c=c, r=r, engine=engine, sign=sign, noise=noise, after=after)
                         if sign == "pos" and r <= 4:
@@ -171,7 +181,8 @@ def big_cases(draw):
     from vlib import strategies as S_
     case["scaffold"] = draw(S_.scaffold())
     nlines = r if not wrapped else r * (c // case["wrap"] + 2)
-    case["noise"] = draw(st.lists(st.tuples(st.one_of(st.integers(0, nlines), st.just(nlines)), st.sampled_from("bc")), max_size=3))
+    case["noise"] = draw(st.lists(st.tuples(st.one_of(st.integers(0, nlines), st.just(nlines)), st.sampled_from("bcit")), max_size=3))
+    case["mnemonic_case"] = draw(st.sampled_from(["upper", "upper", "lower", "preserve"]))
     case["after"] = draw(st.sampled_from([[], [], ["P"], ["O"], ["P", "O"]]))
     return case
 
